@@ -7,7 +7,7 @@ import (
 	"strings"
 )
 
-// events lists, in source order, what a function body does, as strings:
+// manEvents lists, in source order, what a function body does, as strings:
 //
 //	call:<name>            a call (name rendered as written: "nbs.manifest.Update", "tryFileLock")
 //	defer:<name>           a call lexically inside a defer statement (incl. a deferred func literal)
@@ -19,7 +19,7 @@ import (
 //
 // Nested function literals are walked in place (that is where the code runs for immediately-invoked
 // closures, which is how file_manifest.go uses them); deferred ones are tagged defer.
-func (c *ctx) events(rel string, fd *ast.FuncDecl, watch map[string]bool) []string {
+func (c *ctx) manEvents(rel string, fd *ast.FuncDecl, watch map[string]bool) []string {
 	var out []string
 	norm := func(n ast.Node) string { return strings.Join(strings.Fields(c.src(rel, n)), " ") }
 	pre := ""
@@ -101,8 +101,8 @@ func (c *ctx) events(rel string, fd *ast.FuncDecl, watch map[string]bool) []stri
 	return out
 }
 
-// mustFunc finds a function or fails with a message naming it.
-func (c *ctx) mustFunc(rel, recv, name string) (*ast.FuncDecl, error) {
+// manMustFunc finds a function or fails with a message naming it.
+func (c *ctx) manMustFunc(rel, recv, name string) (*ast.FuncDecl, error) {
 	f, err := c.file(rel)
 	if err != nil {
 		return nil, err
@@ -114,8 +114,8 @@ func (c *ctx) mustFunc(rel, recv, name string) (*ast.FuncDecl, error) {
 	return fd, nil
 }
 
-// need fails unless every wanted string occurs in evs (shape check: fail loudly on refactors)
-func need(where string, evs []string, wanted ...string) error {
+// manNeed fails unless every wanted string occurs in evs (shape check: fail loudly on refactors)
+func manNeed(where string, evs []string, wanted ...string) error {
 	set := map[string]bool{}
 	for _, e := range evs {
 		set[e] = true
